@@ -74,15 +74,15 @@ Proof. exact @choice_weighted_pick_positive. Qed.
 Print Assumptions C19_chosen_weight_positive.
 
 (* ProgressivelyTerminalDecider (after the repair of F42): whatever the grammar, context and source state, the
-   production it returns does not have declared weight zero whenever the weights it hands to choice_weighted are
-   non-negative with a positive integer total; and when its depth heuristic is zero for every alternative, the weights
+   production it returns does not have declared weight zero whenever the production weights and the target depth are
+   non-negative (the heuristic weight is clamped at 0: repair of F44) and the integer total of the weights it hands to
+   choice_weighted is positive; and when its depth heuristic is zero for every alternative, the weights
    it hands over are exactly the production weights (before the repair the first alternative was returned) *)
 Theorem C19_progressive_decider_respects_weights : forall g key alts ctx st x st',
-  choose g DProg key alts ctx st = (Ok x, st') ->
+  choose g DProg key alts ctx st = (Ok x, st') -> (0 <= c_depth ctx)%Z -> (forall y, (0 <= prod_weight g y)%Q) ->
   exists target ws, prog_final_weights g target ctx alts = Ok ws /\
-    ((forall q, In q ws -> (0 <= q)%Q) -> forall total, last_error (acc_weights ws) = Some total -> (0 < total)%Z ->
-     ~ (prod_weight g x == 0)%Q).
-Proof. exact prog_zero_weight_never. Qed.
+    ((0 <= target)%Z -> forall total, last_error (acc_weights ws) = Some total -> (0 < total)%Z -> ~ (prod_weight g x == 0)%Q).
+Proof. exact prog_zero_weight_never'. Qed.
 Print Assumptions C19_progressive_decider_respects_weights.
 
 Theorem C19_zero_heuristic_falls_back_to_production_weights : forall g target ctx alts ws0,
